@@ -5,7 +5,16 @@ PROP = "C15"
 MODULES = ["NngModel.Props.C15"]
 
 
+# per-protocol halves of the property: "flag = a non-blocking op would succeed" and "non-blocking
+# never parks", proved over all histories in the protocol property files
+EXTRA = {
+    "NngModel.Props.C06": ["Nng.C06.push_writable_iff", "Nng.C06.push_nonblocking_never_parks", "Nng.C06.pull_readable_iff"],
+    "NngModel.Props.C05": ["Nng.C05.T8_readable_iff_queued", "Nng.C05.T8_readable_iff_nb_recv_succeeds", "Nng.C05.T8_pub_always_writable"],
+    "NngModel.Props.C09": ["Nng.C09.B2_send_never_blocks", "Nng.C09.B6_readable", "Nng.C09.B6_writable"],
+}
+
+
 def run(tier, seed, replay=None):
     return generic.run_generic(PROP, MODULES, "poll-judge", tier, seed, replay, generic.augment_c15, 1500, 30000,
                                "event histories of every modelled protocol (providers in vlib/protos.py) with `poll` followed by a socket-level "
-                               "non-blocking receive or send inserted at random quiescent points; judged by Spec/Generic.lean pollStep")
+                               "non-blocking receive or send inserted at random quiescent points; judged by Spec/Generic.lean pollStep", extra=EXTRA)
